@@ -176,6 +176,8 @@ def gen(rng, tier):
         yield line(base, doc=bytes(d), label="GEN-01")
         other = rng.choice([a for a in (1, 4, 5, 0) if a != doc[0]])
         yield line(base, doc=bytes([other]) + rng.randbytes(S.DLEN[other]), label="GEN-04")
+        for other in {1: [8, 0x0b], 0: [2], 4: [9], 5: [10]}.get(doc[0], []):      # another algorithm whose digests have the same length
+            yield line(base, doc=bytes([other]) + doc[1:], label="GEN-04")
         if base.rfc:
             yield line(base, doc=base.chains[0].input_hash, label="GEN-01")      # the chain's input is not the document of a legacy signature
         for label, m in mutations(rng, base):
